@@ -1423,6 +1423,9 @@ class Sim:
             return self.translate(ev)
         if k == "tenant":
             return self.tenant(ev)
+        if k == "bigdoc":
+            self.ctx_site = "bigdoc"
+            return self.mon.c08_bigdoc(ev)
         if k == "probe":
             return self.mon.on_probe(ev)
         if k == "note":
@@ -1962,6 +1965,12 @@ class Generator:
             sim.stats["stall"] += 1
         if r() < f["flush"]:
             self.emit({"k": "flush_caches"})
+        if sim.cfg.get("bigdoc") and not getattr(self, "bigdoc_done", False) and r() < 0.3:
+            self.bigdoc_done = True
+            n = rng.choice([66000, 70000, 132000])
+            a = rng.randint(1, 200)
+            self.emit({"k": "bigdoc", "n": n, "from": a, "to": a + rng.choice([65530, 65536, 65600, n - 300]),
+                       "second": rng.choice([0, 3])})
         if sim.auth.up and sim.auth.version and r() < f["translate"]:
             v = sim.auth.version
             v1, v2 = rng.randint(0, v), rng.randint(0, v)
